@@ -334,6 +334,7 @@ func blockOnListChangeWorker(
 
 	verifPoint("block.beforeregister", ctx.cs.id)
 	ws := blockFn()
+	verifBind(ws, ctx.cs.id)
 	defer ctx.dsc.ds.leaveListBlock(ws)
 	verifPoint("block.afterregister", ctx.cs.id)
 
@@ -389,6 +390,7 @@ func blockOnListChangeWorker(
 		// the wake-up took this client out of the wait lists: register again, then look
 		// once more (an element pushed in between would otherwise wake nobody)
 		ctx.dsc.ds.reenterListBlock(ws)
+		verifPoint("block.afterreregister", ctx.cs.id)
 		output = op()
 		if output.data != nil {
 			return
